@@ -105,3 +105,20 @@ Section GroupLocal.
     end.
 
 End GroupLocal.
+
+(** ** no fragment reaches itself (the form in which C01 uses C04_spreads_silent_acyclic).
+    [spread_names sels]: the names of all fragment spreads occurring in [sels] at any depth (inside
+    fields and inline fragments).  [chain D sels l]: [l = F1 :: F2 :: ...] is a path of the
+    spread graph that starts in [sels]: F1 is spread in [sels], F2 in the body of F1, ...; every
+    fragment of it is defined.  [acyclic_frags D]: no defined fragment occurs in a chain that
+    starts in its own body. *)
+Definition spread_names (sels : list selection) : list name :=
+  flat_map (fun s => flat_map (fun t => match t with SSpread n _ _ => [n] | _ => [] end) (sub_sels s)) sels.
+
+Inductive chain (D : document) : list selection -> list name -> Prop :=
+| chain_nil sels : chain D sels []
+| chain_cons sels F fr l :
+    In F (spread_names sels) -> s_fragment D F = Some fr -> chain D (fr_sels fr) l -> chain D sels (F :: l).
+
+Definition acyclic_frags (D : document) : Prop :=
+  forall F fr l, s_fragment D F = Some fr -> chain D (fr_sels fr) l -> ~ In F l.
